@@ -7,7 +7,7 @@ re-read from the working tree on every check (called by tools/gen_params.py).
   gc_null_first      does GC_Sweep's finaliser loop clear freelist[i] before finalising it?
   gc_shrink_wanted   (Notation) when GC_Resize_Less rehashes to ideal(nitems): `n < nslots`, optionally behind an
                      early-return guard (hysteresis) over nitems / nslots / named constants
-  gc_mitems_rule     (Notation) the collection threshold written at both places, as an expression in nitems
+  gc_reg_mitems_rule (Notation) the collection threshold written at both places, as an expression in nitems
   gc_mitems_rule_ok  both threshold updates use the same expression
   gc_set_shape_ok    GC_Set: running test, nitems++, bounds, Resize_More, Set_Ptr, `nitems > mitems`
                      (an early return while a sweep is running, `gc->freelist isnt NULL`, is accepted:
@@ -141,7 +141,7 @@ def generate(repo, emit, src, func_body):
             mit = _cexpr(rules[0], {'gc->nitems': 'n'}, consts)
         except _Bad:
             mit = None
-    emit('gc_mitems_rule', ('Notation gc_mitems_rule n := %s%%nat (only parsing).   (* gc->mitems = %s *)'
+    emit('gc_reg_mitems_rule', ('Notation gc_reg_mitems_rule n := %s%%nat (only parsing).   (* gc->mitems = %s *)'
                             % (mit if mit.startswith('(') else '(%s)' % mit, re.sub(r'\s+', ' ', rules[0]).strip())) if mit else None)
 
     b = func_body(s, r'static\s+uint64_t\s+GC_Hash\s*\(\s*var\s+ptr\s*\)\s*\{')
